@@ -16,6 +16,11 @@ Part 3 is about streams: a small heap model of "Marshal hands a buffer to the tr
 the transport writes it out later"; the regenerated facts about rpc.Codec's Marshal and
 Unmarshal (no pooled / package-level / per-codec buffer reachable, result freshly allocated)
 select the buffer policy, and under it every message of a stream arrives as sent.
+Part 4 is about the boundary between "empty" and "absent": the regenerated msgpack struct
+tags of everything that crosses the boundary and the regenerated list of tests by which the
+receiving code tells message kinds apart select the tag table of the message model; under it
+a RemoteQueryResult comes back exactly (nil-ness included) and the kind the leader infers is
+the kind the follower sent.
 -/
 import ZenoModel.Lemmas.Codec
 import ZenoModel.Generated.Facts
@@ -252,6 +257,74 @@ theorem stream_roundtrip (gs : List GEx) (h : ∀ g ∈ gs, g.linked = true) :
     delivered as the second (what the seeded sync.Pool change did to large messages). -/
 example : delivered .reused [exG, exP] = [some (enc exP), some (enc exP)] ∧
     delivered .fresh [exG, exP] = [some (enc exG), some (enc exP)] := by decide
+
+/-! ## Part 4 — empty versus absent: message kinds survive the boundary -/
+
+/-- the struct tag of a message field as regenerated from the source; a field that is not
+    there any more counts as never transported -/
+def tagOf (typ field : String) : FieldTag :=
+  match Facts.codecFieldTags.find? (fun t => t.typ == typ && t.field == field) with
+  | some t => { omitEmpty := t.omitEmpty, skip := t.skip }
+  | none => { skip := true }
+
+def tagsOfFacts : RQRTags :=
+  { fields := tagOf "RemoteQueryResult" "Fields", key := tagOf "RemoteQueryResult" "Key",
+    vals := tagOf "RemoteQueryResult" "Vals", row := tagOf "RemoteQueryResult" "Row",
+    stats := tagOf "RemoteQueryResult" "Stats", error := tagOf "RemoteQueryResult" "Error",
+    endOfResults := tagOf "RemoteQueryResult" "EndOfResults" }
+
+/-- Struct-tag facts: no field of any struct that crosses the boundary (message structs and
+    registered expression types) carries a `msgpack` tag — none is renamed, skipped (`-`),
+    `omitempty`, inlined, and no struct has the `_msgpack` marker.  This is what makes the
+    model's field tables (wire key = Go field name, every exported field written) the
+    source's; any tag added later re-opens this obligation until it has been modelled. -/
+theorem all_tags_plain :
+    Facts.codecFieldTags.all (fun t =>
+      !t.hasTag && t.wireName == t.field && !t.omitEmpty && !t.skip && t.opts.isEmpty && t.field != "_msgpack") = true ∧
+    (["Insert", "Query", "Point", "RemoteQueryResult", "FlatRow", "Field", "QueryStats", "QueryMetaData", "Follow",
+      "aggregate", "binaryExpr", "ptile"].all (fun n => Facts.codecFieldTags.any (·.typ == n))) = true := by
+  decide
+
+/-- The tests by which the receiving code tells RemoteQueryResult messages apart are the
+    ones the model's `leaderKind` is built from (found in the source: `EndOfResults` in
+    rpc_client.Query and HandleRemoteQueries, `Error != ""` in HandleRemoteQueries, and
+    `fields/key/flatRow != nil` in queryCluster, traced back through the callbacks to
+    `m.Fields`, `m.Key`, `m.Row`).  A new test on a message field breaks this. -/
+theorem kind_tests_match_model :
+    ((Facts.codecKindTests.filter (·.msgType == "RemoteQueryResult")).map (fun t => (t.field, t.test))).eraseDups =
+      rqrKindFields := by
+  decide
+
+/-- For EVERY message type: a field the receiving code compares with nil is neither
+    `omitempty` nor skipped (nil-ness must survive), and no tested field at all is skipped. -/
+theorem tested_fields_keep_their_meaning :
+    Facts.codecKindTests.all (fun k =>
+      let t := tagOf k.msgType k.field
+      !t.skip && (k.test != "nil" || !t.omitEmpty)) = true := by
+  decide
+
+/-- Under the source's tags a RemoteQueryResult comes back exactly as sent, nil-ness of every
+    slice, ByteMap and pointer included. -/
+theorem msg_roundtrip_exact (m : RQR) : m.roundTrip tagsOfFacts = m := by
+  have h : tagsOfFacts = {} := by decide
+  rw [h]; exact RQR.roundTrip_plain m
+
+/-- The message kind the leader infers from a decoded message is the kind the follower sent —
+    for all messages, including unflat rows whose key has zero dims (`some []`), field lists
+    with zero fields, flat rows with no values. -/
+theorem kind_preserved (s : Sent) (unflat : Bool)
+    (hq : match s with | .unflatRow _ _ => unflat = true | .flatRow _ => unflat = false | _ => True) :
+    leaderKind s.first unflat (s.msg.roundTrip tagsOfFacts) = s.kind :=
+  leaderKind_roundTrip tagsOfFacts (by decide) (by decide) (by decide) (by decide) s unflat hq
+
+/-- Non-vacuity: with `omitempty` on `Key` (the seeded change) an unflat row whose key has
+    zero dims arrives as "partition finished"; with the source's tags it arrives as a row. -/
+example :
+    leaderKind false true ((Sent.unflatRow [] (some [some [1, 2], none])).msg.roundTrip { key := { omitEmpty := true } })
+      = .partitionDone ∧
+    leaderKind false true ((Sent.unflatRow [] (some [some [1, 2], none])).msg.roundTrip tagsOfFacts) = .unflatRow ∧
+    leaderKind true false ((Sent.fieldList []).msg.roundTrip { fields := { omitEmpty := true } }) = .partitionDone := by
+  decide
 
 /-- Known asymmetry, outside the property's observers: `Validate()` reads
     `binaryExpr.DeAggregated`, which does not survive.  The value expression of
